@@ -214,9 +214,14 @@ func (b *Buffer) ServeHTTP(w http.ResponseWriter, req *http.Request) {
 				// the handler wrote without choosing a status: that means 200, as in net/http
 				bw.code = http.StatusOK
 			}
+			// values of trailers the handler announced go out after the body, not among the headers as well
+			trailers := takeAnnouncedTrailers(w.Header())
 			w.WriteHeader(bw.code)
 			if reader != nil {
 				_, _ = io.Copy(w, reader)
+			}
+			for k, v := range trailers {
+				w.Header()[k] = v
 			}
 			return
 		}
